@@ -145,6 +145,12 @@ def imprecise(x):
     return False
 
 
+def opaque(t):
+    """Is the term itself (not merely a sub-term) a summarised value: a loop variable or an unknown call result?"""
+    return isinstance(t, tuple) and len(t) == 2 and t[0] == "v" and (
+        (isinstance(t[1], tuple) and t[1] and t[1][0] in IMPRECISE) or (isinstance(t[1], str) and t[1].startswith("top:")))
+
+
 def cond_txt(c):
     if c[0] == "eq":
         return f"{show_poly(as_poly(c[1]))} == {show_poly(as_poly(c[2]))}"
@@ -1591,6 +1597,10 @@ def lax_delete_nodes_witness(c, a, st, v):
                 ok = False
     c.ob("ENS", "delete_nodes_witness: every hyperedge's sources and targets are filtered and renumbered through the map",
          f"adjacency ≡ map(e -> filter_map through the renumber map): got {show_term(got)[:300]}", ok or L == EMPTY, st)
+    q0, q1 = p.f["quotient"].items[0].t, p.f["quotient"].items[1].t
+    c.ob("ENS", "delete_nodes_witness: the pending unifications stay pairs (both columns keep or drop a pair together)",
+         f"len(quotient.0') == len(quotient.1'): {show_term(q0)[:120]} / {show_term(q1)[:120]}",
+         st.eq(t_len(q0), t_len(q1)), st, actual=(q0, q1) if (opaque(q0) or opaque(q1)) else None)
     c.eq(st, "delete_nodes_witness: the reported map has one entry per old node", t_len(v.t), t_len(f.f["nodes"].t))
     c.teq(st, "delete_nodes_witness: hyperedge labels untouched", p.f["edges"].t, f.f["edges"].t)
 
